@@ -731,6 +731,12 @@ def specs(draw: Any, opts: Opts = Opts()) -> Spec:
         bases = []  # type: List[str]
         if chain:
             bases = [spec.cps[-1].name]
+            # ... and sometimes a second parent next to it (either order), so that what EACH parent contributes counts
+            others = [c.name for c in same if c.name != bases[0] and c.name not in spec.cp_ancestors(bases[0])
+                      and bases[0] not in spec.cp_ancestors(c.name)]
+            if others and draw(st.booleans()):
+                o2 = draw(st.sampled_from(others))
+                bases = [o2, bases[0]] if draw(st.booleans()) else [bases[0], o2]
         elif same and draw(st.booleans()):
             k = draw(st.integers(1, min(2, len(same))))
             idx = draw(st.lists(st.integers(0, len(same) - 1), min_size=k, max_size=k, unique=True))
@@ -810,9 +816,23 @@ def specs(draw: Any, opts: Opts = Opts()) -> Spec:
             r = draw(st.floats(0, 1))
             if r < 0.65:
                 k = 1 if (ci < 2 or draw(st.floats(0, 1)) > opts.p_diamond) else 2
-                idx = draw(st.lists(st.integers(0, ci - 1), min_size=k, max_size=k, unique=True))
-                bases = [cls_names[i] for i in sorted(idx)]
-                bases = [b for b in bases if not any(b in spec.ancestors(o) for o in bases if o != b)]
+                # a true diamond (two bases with a common ancestor, in either order) where one can be built
+                pairs = []  # type: List[Tuple[str, str]]
+                if k == 2:
+                    for i in range(ci):
+                        for j in range(i + 1, ci):
+                            a, b = cls_names[i], cls_names[j]
+                            if a in spec.ancestors(b) or b in spec.ancestors(a):
+                                continue
+                            if set(spec.ancestors(a)) & set(spec.ancestors(b)):
+                                pairs.append((a, b))
+                if pairs and draw(st.integers(0, 2)) > 0:
+                    a, b = draw(st.sampled_from(pairs))
+                    bases = [a, b] if draw(st.booleans()) else [b, a]
+                else:
+                    idx = draw(st.lists(st.integers(0, ci - 1), min_size=k, max_size=k, unique=True))
+                    bases = [cls_names[i] for i in sorted(idx)]
+                    bases = [b for b in bases if not any(b in spec.ancestors(o) for o in bases if o != b)]
         abstract = draw(st.floats(0, 1)) < 0.3
         spec.classes.append(Cls(nm, bases, abstract, [], [], False, _plain_doc(draw, opts),
                                 dbc=draw(st.booleans()), kw_super=draw(st.booleans())))
